@@ -49,6 +49,16 @@ def Tune.sample (t : Tune) (bit : Bool) (seq : BitVec 32) : Tune :=
 def Tune.window (t : Tune) : List Pulse :=
   (List.range t.count).map fun i => t.pulses.getD ((t.head + i) % maxAutoTuneSamples) default
 
+/-- compiled form of `window` (array indexing instead of list indexing); the theorems are about
+    `window`, the `csimp` lemma makes the driver run this one -/
+def Tune.windowFast (t : Tune) : List Pulse :=
+  let a := t.pulses.toArray
+  (List.range t.count).map fun i => a.getD ((t.head + i) % maxAutoTuneSamples) default
+
+@[csimp] theorem window_eq_fast : @Tune.window = @Tune.windowFast := by
+  funext t
+  simp [Tune.window, Tune.windowFast, Array.getD_eq_getD_getElem?, List.getD_eq_getElem?_getD]
+
 /-- the comparator handed to the sort, as a `≤` (`¬ less b a`) -/
 def pulseLe (a b : Pulse) : Bool := !(decide (itimediff b.seq a.seq < 0))
 
